@@ -401,7 +401,7 @@ fn ym_idx() -> BoxedStrategy<i64> {
         (1, (proptest::sample::select(vec![0i64, -1, 1, 9999, 10000, 1972, 1970, 2000, -400]), 0i64..12).prop_map(|(y, m)| y * 12 + m).boxed()),
     ])
 }
-fn ym_route_case() -> BoxedStrategy<YmRouteCase> {
+pub fn ym_route_case() -> BoxedStrategy<YmRouteCase> {
     let idx = gen::boxed_union(vec![(6, ym_idx()), (1, (1i64..=30).prop_map(|k| MIN_IDX - k).boxed()), (1, (1i64..=30).prop_map(|k| MAX_IDX + k).boxed())]);
     (idx, 1u8..=31, gen::ns_of_day(), -1439i32..=1439, 0u8..6, 0u8..4)
         .prop_map(|(i, day, ns, off_min, sep, zone)| {
@@ -491,7 +491,7 @@ impl SubCheck for YmCtorSub {
     }
 }
 
-fn ym_ctor_case() -> BoxedStrategy<YmCtorCase> {
+pub fn ym_ctor_case() -> BoxedStrategy<YmCtorCase> {
     let y = gen::boxed_union(vec![
         (4, (-271823i64..=275762).boxed()),
         (2, prop_oneof![Just(-271821i64), Just(275760), Just(-271822), Just(275761), Just(0), Just(1972), Just(1900), Just(2000)].boxed()),
@@ -651,7 +651,7 @@ fn add_dur() -> BoxedStrategy<Dur> {
         .boxed()
 }
 
-fn ym_add_case() -> BoxedStrategy<YmAddCase> {
+pub fn ym_add_case() -> BoxedStrategy<YmAddCase> {
     // half of the durations are aimed: they lead from the receiver to a chosen target month (+- a little)
     let aimed = (ym_idx(), ym_idx(), -2i64..=2, any::<bool>()).prop_map(|(a, b, k, split)| {
         let delta = b - a + k;
@@ -890,7 +890,7 @@ fn ym_pair() -> BoxedStrategy<(i64, i64)> {
     gen::boxed_union(vec![(3, near.boxed()), (2, (ym_idx(), ym_idx()).boxed())])
 }
 
-fn ym_diff_case() -> BoxedStrategy<YmDiffCase> {
+pub fn ym_diff_case() -> BoxedStrategy<YmDiffCase> {
     let largest = prop_oneof![8 => Just(OptUnit::Absent), 3 => Just(OptUnit::Auto), 8 => Just(OptUnit::Is(U::Year)), 6 => Just(OptUnit::Is(U::Month)),
         1 => prop_oneof![Just(U::Week), Just(U::Day)].prop_map(OptUnit::Is), 1 => gen::unit_in(4, 9).prop_map(OptUnit::Is)];
     let smallest = prop_oneof![9 => Just(OptUnit::Absent), 8 => Just(OptUnit::Is(U::Year)), 8 => Just(OptUnit::Is(U::Month)),
